@@ -172,6 +172,37 @@ Proof.
   vm_compute. repeat split; reflexivity.
 Qed.
 
+(* Known finding `mfi-cpi-inside-bracket` (known_findings.json): C10_bracket restricts the TOP-LEVEL
+   instructions (`map t_d tx`); the literal "none via CPI" does not extend to marginfi instructions
+   that an allow-listed program invokes by CPI between start and end.  Witness: account 2 borrows
+   through a CPI from the Jupiter program id in the middle of account 1's receivership, and the
+   transaction commits (replayed on the real handlers by the case line of the finding). *)
+Definition ex_B : acct tpf :=
+  mkA fl_zero 12 false true 0 c4_zero [(31, (100000000, 0)); (32, (0, 100000000))] false.
+Definition ex_w2 : world tbw tpf := toy_world [(1, ex_A); (2, ex_B)] ex_bw 21 21 (ONE / 10).
+Definition ex_tx_cpi : list top_ix :=
+  [top (mk_SL 1 20); proxy PJup (mk_BR 2 12 32 1000000); top (mk_WD 1 20 31 5000000);
+   top (mk_RP 1 20 32 60000000); top (mk_EL 1 20)].
+
+Theorem C10_none_via_cpi_refuted :
+  exists (w : world tbw tpf) tx w' i t d,
+    clean_r w /\ toy_exec_tx w tx = Some w' /\ start_at (map t_d tx) 0 KLiq 1 /\
+    nth_z tx i = Some t /\ 0 < i < len_z tx - 1 /\ d_prog (t_d t) <> PMfi /\
+    In d (t_inner t) /\ d_prog d = PMfi /\ d_disc d = IX_BR /\
+    (match w_accts w 2, w_accts w' 2 with
+     | Some b, Some b' => a_pf b = [(31, (100000000, 0)); (32, (0, 100000000))] /\
+                          a_pf b' = [(31, (100000000, 0)); (32, (0, 101000000))]
+     | _, _ => False end).
+Proof.
+  exists ex_w2, ex_tx_cpi. eexists. exists 1. eexists. eexists.
+  split; [intros k; unfold orc, odl, orv, ex_w2, toy_world; cbn [w_accts assoc];
+          destruct (1 =? k); [cbn; auto|]; destruct (2 =? k); cbn; auto|].
+  split; [vm_compute; reflexivity|].
+  split; [eexists; split; [reflexivity|]; repeat split; try (vm_compute; congruence); eexists; reflexivity|].
+  split; [reflexivity|]. split; [vm_compute; split; reflexivity|]. split; [cbn; discriminate|].
+  split; [left; reflexivity|]. split; [reflexivity|]. split; [reflexivity|]. vm_compute. split; reflexivity.
+Qed.
+
 Print Assumptions C10_validate_ix_first_language.
 Print Assumptions C10_validate_ix_last_language.
 Print Assumptions C10_validate_ixes_exclusive_language.
@@ -187,3 +218,4 @@ Print Assumptions C10_third_party_needs_receivership.
 Print Assumptions C10_withdraw_guard.
 Print Assumptions C10_receivership_blocks.
 Print Assumptions C10_discriminators_agree.
+Print Assumptions C10_none_via_cpi_refuted.
